@@ -76,10 +76,11 @@ var (
 	mkUp      func(i int) *upConn
 	ups       []*upConn
 	errDial   = errors.New("dial tcp: connection refused")
+	dialErrs  []error // the error of every failed dial, in order (each one distinct)
 )
 
 func resetEnv() {
-	dials, dialTimes, ups = nil, nil, nil
+	dials, dialTimes, ups, dialErrs = nil, nil, nil, nil
 	dialFail = func(int) bool { return false }
 	mkUp = func(i int) *upConn { return &upConn{id: i} }
 }
@@ -90,7 +91,9 @@ func Repl_Dial(network, address string) (net.Conn, error) {
 	dials = append(dials, address)
 	dialTimes = append(dialTimes, vapi.Elapsed())
 	if dialFail(i) {
-		return nil, errDial
+		e := errors.New("dial tcp " + address + ": connection refused")
+		dialErrs = append(dialErrs, e)
+		return nil, e
 	}
 	u := mkUp(len(ups))
 	ups = append(ups, u)
@@ -234,7 +237,7 @@ func VH_retry() {
 	}
 	if len(ups) == 0 {
 		vapi.Cover("gave up")
-		vapi.Assert(err == errDial, "Handle must fail with the last dial error")
+		vapi.Assert(len(dialErrs) > 0 && err == dialErrs[len(dialErrs)-1], "Handle must fail with the last dial error")
 		vapi.Assert(el >= tryDur, "gave up before try_duration had elapsed")
 		if tryDur == 0 {
 			vapi.Assert(len(dials) == 1, "try_duration 0 means exactly one attempt")
